@@ -2,7 +2,8 @@ import python_minifier.ast_compat as ast
 
 
 def remove_posargs(node):
-    if isinstance(node, ast.arguments) and hasattr(node, 'posonlyargs'):
+    if isinstance(node, ast.arguments) and hasattr(node, 'posonlyargs') and node.kwarg is None:
+        # With a **kwargs parameter a positional-only name may also be passed as a keyword, so the '/' must stay
         node.args = node.posonlyargs + node.args
         node.posonlyargs = []
 
